@@ -917,6 +917,13 @@ class FD:
         if isinstance(recv, list) and attr in ('append', 'extend', 'insert', 'clear'):
             getattr(recv, attr)(*args)
             return None
+        if isinstance(recv, list) and attr == 'remove':
+            for i, x in enumerate(recv):
+                if x is args[0] or (not isinstance(x, (Obj, Opaque)) and not isinstance(args[0], (Obj, Opaque))
+                                    and type(x) is type(args[0]) and x == args[0]):
+                    del recv[i]
+                    return None
+            raise Raised('ValueError', 'list.remove(x): x not in list')
         if isinstance(recv, list) and attr == 'pop':
             try:
                 return recv.pop(*args)
@@ -1042,6 +1049,39 @@ class FD:
                     continue
             if not broke:
                 self.block(st.orelse, env)
+            return
+        if isinstance(st, ast.Delete):
+            for t in st.targets:
+                if isinstance(t, ast.Name):
+                    env.pop(t.id, None)
+                elif isinstance(t, ast.Attribute):
+                    base = self.eval(t.value, env)
+                    if isinstance(base, ClassObj):
+                        base.own.pop(t.attr, None)
+                    elif isinstance(base, Obj):
+                        if t.attr not in base.attrs:
+                            raise Raised('AttributeError', t.attr)
+                        del base.attrs[t.attr]
+                    else:
+                        raise Inconclusive('fdeval: del of an attribute of %r' % (base,))
+                elif isinstance(t, ast.Subscript):
+                    base = self.eval(t.value, env)
+                    if not isinstance(base, (list, dict)):
+                        raise Inconclusive('fdeval: del of an item of %r' % (base,))
+                    if isinstance(t.slice, ast.Slice):
+                        lo = self.eval(t.slice.lower, env) if t.slice.lower else None
+                        hi = self.eval(t.slice.upper, env) if t.slice.upper else None
+                        del base[lo:hi]
+                    else:
+                        k = self.eval(t.slice, env)
+                        try:
+                            del base[k]
+                        except KeyError:
+                            raise Raised('KeyError', repr(k))
+                        except IndexError:
+                            raise Raised('IndexError', repr(k))
+                else:
+                    raise Inconclusive('fdeval: del target %s' % type(t).__name__)
             return
         if isinstance(st, ast.While):
             broke = False
